@@ -266,6 +266,10 @@ impl Target {
         }
     }
 
+    pub fn read_from_pub(&self, data: Vec<u8>, orig_len: usize, sizes: &[u32], cap: usize) -> io::Result<Vec<u8>> {
+        self.read_from(std::io::Cursor::new(data), orig_len, sizes, cap)
+    }
+
     fn framed(&self) -> bool {
         !matches!(self, Target::Bcj { .. } | Target::Delta { .. })
     }
